@@ -35,13 +35,17 @@ LEVEL_TEXT = ("Lean 4 theorems over transliterations of normalize_chunks / block
               "rechunk_values_unchanged, rechunk_locate (element level), rechunk_nd_exact / rechunk_nd_values (n-d: every "
               "element of every new block is read from an existing old element with the same global index on every axis), "
               "merge_to_number_spec (all paths incl. the heap loop with lazy deletion: same total, positive, exactly "
-              "max_number chunks), divide_to_width_spec, find_split_valid, find_merge_valid, plan_rechunk_stages_valid "
+              "max_number chunks; zero-length chunks accepted), divide_to_width_spec, balance_chunksizes_valid, find_split_valid, "
+              "find_merge_valid, find_merge_never_raises (both assertions of find_merge_rechunk hold, no division by zero, "
+              "the result fits the limit - for every duplicate-free candidate order), merge_to_number_never_raises (heap "
+              "invariant: no pop from an empty heap, no index past the end, no None+int, for max_number >= 1 and any chunks), "
+              "plan_rechunk_never_raises (the modelled plan_rechunk raises nowhere on valid chunkings), plan_rechunk_stages_valid "
               "(every stage of every plan is a valid chunking of the shape and the plan ends with the target, for every "
               "threshold / byte limit / candidate order), plan_compose, plan_rechunk_exact (executing the modelled plan "
               "stage by stage yields exactly the requested chunks over unchanged data). VALIDATED ONLY: the byte limit "
               "with previous_chunks (false as stated: documented tolerance, known finding), termination of the auto_chunks "
               "fix-point loop, of merge_to_number's heap loop (fuel) and of plan_rechunk's loop (observed), the float "
-              "arithmetic itself (k-th root, log-ratio sort key, int(a*b/c)), _balance_chunksizes (sum/positivity oracle), "
+              "arithmetic itself (k-th root, log-ratio sort key, int(a*b/c)), "
               "the graph construction of _compute_rechunk (keys, getitem/concatenate_shaped per axis) - checked at API level "
               "against NumPy, block shapes, and with several rechunks of one source merged into one graph.")
 LEVEL_NOTE = ("Trusted: Lean kernel + standard axioms; the correspondence harness incl. its observers (a sys.settrace line "
@@ -64,8 +68,7 @@ ASSUMPTIONS = [
     "modelled merge loop is never exhausted in the diff",
     "getitem with a tuple of slices and concatenate_shaped on in-memory blocks act axis by axis (NumPy)",
 ]
-TRUSTED = ["_balance_chunksizes is a heuristic: only sum/positivity of its result are checked",
-           "termination of auto_chunks' `while multiplier_remaining`, merge_to_number's `while nmerges > 0` and plan_rechunk's "
+TRUSTED = ["termination of auto_chunks' `while multiplier_remaining`, merge_to_number's `while nmerges > 0` and plan_rechunk's "
            "`while True` is observed (per-case watchdog), not proved",
            "HighLevelGraph/Task construction in _compute_rechunk: validated at API level (values, block shapes, key "
            "distinctness of two rechunks of one source)"]
